@@ -147,7 +147,7 @@ pub fn replay(case: &Json, l: &mut Local) -> CaseResult {
         return check_display(&pieces, case["wrap"].as_u64().unwrap_or(0) as u8, l);
     }
     if case.get("probe").is_some() {
-        return check_human_readable_flag(l);
+        return check_human_readable_flag_c01(l);
     }
     if let Some(r) = super::corpus_checks::replay_corpus(case, l) {
         return r;
@@ -195,7 +195,7 @@ pub fn run(ctx: &Ctx) {
          (with 3 different tails) by from_bytes/take_from_bytes/from_io/from_eio; text emitted through collect_str by a Display impl (write_str / write_char / nested formatting; ASCII, Latin-1, multi-byte) decoded as String. non-trivial = composite shape \
          or encoding >= 2 bytes; distinct = hash(shape, bytes) (enumerated scalars are distinct by construction)",
     );
-    ctx.serial("human-readable-flag", check_human_readable_flag);
+    ctx.serial("human-readable-flag", check_human_readable_flag_c01);
     ctx.assume("value equality is structural on the harness Value (floats by bit pattern)");
     ctx.assume("serde adapters in harness/src/dynshape.rs are trusted (self-checked against the reference encoder)");
 
